@@ -212,7 +212,14 @@ def execute(hist):
                 before_snap = canon.snapshot(view)
                 try:
                     # the prefix is spelled with a trailing separator at every other step (same directory)
-                    signac.Project(pd).create_linked_view(prefix=view + os.sep if k % 2 else view, **kwargs)
+                    if k % 3 == 2:
+                        os.chdir(root)  # ... and relative to the working directory at every third step
+                        try:
+                            signac.Project(pd).create_linked_view(prefix="view", **kwargs)
+                        finally:
+                            os.chdir("/")
+                    else:
+                        signac.Project(pd).create_linked_view(prefix=view + os.sep if k % 2 else view, **kwargs)
                     exc = None
                 except Exception as e:  # noqa
                     exc = e
